@@ -692,7 +692,10 @@ func vC08GenMsgs(r *vRng, small bool, forWrite bool) (msgs []vSx, wireLen int) {
 			n = r.rng(2, 60)
 		}
 		if !small && r.chance(1, 4) {
-			n = r.pickInt(4095, 4096, 4097, 5000, 8192, 70000)
+			n = r.pickInt(4095, 4096, 4097, 5000, 8192)
+			if r.chance(1, 5) {
+				n = r.pickInt(65536, 70000)
+			}
 		}
 		if forWrite && n == 0 {
 			n = 1
@@ -766,6 +769,66 @@ func vC08GenSegs(r *vRng) vSx {
 	}
 }
 
+
+// number of offsets a sweep over a wire of wl bytes may use: the cost of one run is ~ wl
+// (implementation and model re-read the delivered prefix), so a sweep is given a byte budget
+func vC08Budget(k *vKit, wl int, scale int) int {
+	b := 200000
+	if k.thorough() {
+		b = 1500000
+	}
+	n := b * scale / (wl + 1)
+	if n < 8 {
+		n = 8
+	}
+	return n
+}
+
+// all offsets 0..wl when the budget allows, else the marked offsets +-2 first, then random ones
+func vC08PickKs(k *vKit, wl int, marks []int, scale int) vSx {
+	budget := vC08Budget(k, wl, scale)
+	if wl+1 <= budget {
+		return vL(vZ(0), vZ(0), vI(wl))
+	}
+	set := []vSx{vZ(1)}
+	seen := map[int]bool{}
+	add := func(x int) {
+		if x >= 0 && x <= wl && !seen[x] && len(set) <= budget {
+			seen[x] = true
+			set = append(set, vI(x))
+		}
+	}
+	for _, d := range []int{0, -1, 1, -2, 2} {
+		for _, m := range marks {
+			if len(set) <= budget*3/4 {
+				add(m + d)
+			}
+		}
+	}
+	for tries := 0; len(set) <= budget && tries < 4*budget; tries++ {
+		add(k.rnd.intn(wl + 1))
+	}
+	return vLs(set)
+}
+
+// keep at most lim (>= 4) of the collected offsets: the first and last quarter and random ones between
+func vC08Thin(k *vKit, set []vSx, lim int) []vSx {
+	if lim < 4 {
+		lim = 4
+	}
+	if len(set)-1 <= lim {
+		return set
+	}
+	q := lim / 4
+	keep := []vSx{set[0]}
+	keep = append(keep, set[1:1+q]...)
+	for j := 0; j < lim-2*q; j++ {
+		keep = append(keep, set[1+q+k.rnd.intn(len(set)-1-2*q)])
+	}
+	keep = append(keep, set[len(set)-q:]...)
+	return keep
+}
+
 func vC08TermRead(r *vRng) int { return r.pickInt(0, 0, 0, 1, 2, 4) }
 
 func TestVerifC08Rtmp(t *testing.T) {
@@ -828,62 +891,32 @@ func TestVerifC08Rtmp(t *testing.T) {
 			runOne(rdCase(0, msgs, vC08TermRead(k.rnd), k.rnd.intn(2), vC08GenSegs(k.rnd), vL(vZ(0), vZ(0), vI(wl))), false)
 		}
 	}
-	// with the handshake: every offset
-	nHs := k.N(2, 12)
+	// with the handshake: every offset (quick: one session)
+	nHs := k.N(1, 6)
 	for i := 0; i < nHs; i++ {
 		msgs, wl := vC08GenMsgs(k.rnd, true, false)
 		runOne(rdCase(1, msgs, vC08TermRead(k.rnd), k.rnd.intn(2), vC08GenSegs(k.rnd), vL(vZ(0), vZ(0), vI(wl+vC08HsLen))), false)
 	}
-	// larger sessions: thorough = every offset; quick = every chunk/item boundary +-2 and random offsets
-	nLarge := k.N(16, 60)
+	// larger sessions: every offset when the byte budget allows, else every chunk/item boundary +-2 and random offsets
+	nLarge := k.N(12, 80)
 	for i := 0; i < nLarge; i++ {
 		msgs, wl := vC08GenMsgs(k.rnd, false, false)
-		hs := 0
+		marks := []int{}
+		base, hs := 0, 0
 		if i%4 == 0 {
-			hs = 1
-			wl += vC08HsLen
+			hs, base = 1, vC08HsLen
+			marks = append(marks, 1, 1537, 3073)
 		}
-		ks := vL(vZ(0), vZ(0), vI(wl))
-		if !k.thorough() || wl > 30000 {
-			set := []vSx{vZ(1)}
-			seen := map[int]bool{}
-			add := func(x int) {
-				for d := -2; d <= 2; d++ {
-					if x+d >= 0 && x+d <= wl && !seen[x+d] {
-						seen[x+d] = true
-						set = append(set, vI(x+d))
-					}
-				}
-			}
-			add(0)
-			add(wl)
-			ms, _ := vC08ParseMsgs(vLs(msgs))
-			_, ends, _, _ := vC08RefChunks(ms, false)
-			base := 0
-			if hs == 1 {
-				base = vC08HsLen
-				add(1)
-				add(1537)
-				add(3073)
-			}
-			for _, e := range ends {
-				add(base + e)
-			}
-			if len(vC08Marks) < 200 {
-				for _, e := range vC08Marks {
-					add(base + e)
-				}
-			}
-			for j := 0; j < 60; j++ {
-				x := k.rnd.intn(wl + 1)
-				if !seen[x] {
-					seen[x] = true
-					set = append(set, vI(x))
-				}
-			}
-			ks = vLs(set)
+		marks = append(marks, 0, base+wl)
+		ms, _ := vC08ParseMsgs(vLs(msgs))
+		_, ends, _, _ := vC08RefChunks(ms, false)
+		for _, e := range ends {
+			marks = append(marks, base+e)
 		}
-		runOne(rdCase(hs, msgs, vC08TermRead(k.rnd), k.rnd.intn(2), vC08GenSegs(k.rnd), ks), false)
+		for _, e := range vC08Marks {
+			marks = append(marks, base+e)
+		}
+		runOne(rdCase(hs, msgs, vC08TermRead(k.rnd), k.rnd.intn(2), vC08GenSegs(k.rnd), vC08PickKs(k, base+wl, marks, 1)), false)
 	}
 	// error at every transport Read call index
 	nIdx := k.N(30, 300)
@@ -905,15 +938,7 @@ func TestVerifC08Rtmp(t *testing.T) {
 				last = s
 			}
 		}
-		if lim := k.N(140, 3000); len(set)-1 > lim {
-			keep := []vSx{vZ(1)}
-			keep = append(keep, set[1:41]...)
-			for j := 0; j < lim-80; j++ {
-				keep = append(keep, set[41+k.rnd.intn(len(set)-81)])
-			}
-			keep = append(keep, set[len(set)-40:]...)
-			set = keep
-		}
+		set = vC08Thin(k, set, vC08Budget(k, wl, 1)/4)
 		k.hist["rtmp"]["read-call-indices"] += len(set) - 1
 		for _, term := range []int{1, 2, 4} {
 			runOne(rdCase(hs, msgs, term, k.rnd.intn(2), segs, vLs(set)), false)
@@ -931,6 +956,15 @@ func TestVerifC08Rtmp(t *testing.T) {
 		m := k.rnd.pickInt(0, 0, 1, 3, 10, 12, 100, 1<<30)
 		ms, _ := vC08ParseMsgs(vLs(msgs))
 		free := vC08WriteSession(hs == 1, ms, -1, 0, nil)
-		runOne(vL(vZ(3), vZ(1), vI(hs), vLs(msgs), vI(term), vI(m), vL(vZ(0), vZ(0), vI(len(free.w.sizes)))), false)
+		nc := len(free.w.sizes)
+		is := vL(vZ(0), vZ(0), vI(nc))
+		if lim := vC08Budget(k, len(free.w.buf), 1); nc+1 > lim {
+			set := []vSx{vZ(1)}
+			for j := 0; j <= nc; j++ {
+				set = append(set, vI(j))
+			}
+			is = vLs(vC08Thin(k, set, lim))
+		}
+		runOne(vL(vZ(3), vZ(1), vI(hs), vLs(msgs), vI(term), vI(m), is), false)
 	}
 }
